@@ -29,11 +29,11 @@ type ProgParam struct {
 
 // ProgFunc is one function of the chain.
 type ProgFunc struct {
-	Name     string      `json:"name"`     // "f3" or "m3"
-	Method   bool        `json:"method"`   // pointer-receiver method on *T
-	Params   []ProgParam `json:"params"`   // without the receiver
+	Name     string      `json:"name"`      // "f3" or "m3"
+	Method   bool        `json:"method"`    // pointer-receiver method on *T
+	Params   []ProgParam `json:"params"`    // without the receiver
 	CallLine int         `json:"call_line"` // line of the call to the next function (or of the panic)
-	Words    int         `json:"words"`    // total words including the receiver
+	Words    int         `json:"words"`     // total words including the receiver
 }
 
 // Prog is a generated program.
@@ -158,6 +158,12 @@ func GenProg(r *core.Rand, n int) *Prog {
 		np := 1 + r.Intn(6)
 		for k := 0; k < np; k++ {
 			pp := GenParam(r)
+			if n := len(f.Params); n > 0 && r.Chance(1, 4) {
+				// same type as the previous parameter (a fresh value): exercises "a, b T" declarations
+				for tries := 0; tries < 200 && pp.Kind != f.Params[n-1].Kind; tries++ {
+					pp = GenParam(r)
+				}
+			}
 			if f.Words+pp.Words > budget {
 				continue
 			}
